@@ -518,6 +518,132 @@ class ProgGen(Gen):
         self.budget -= len(out)
         return out
 
+    def s_blank(self, cx):
+        """structs with blank fields declared in the CURRENT package: values that differ only in the blank field are equal
+        (==, !=, switch, as array elements, as nested fields, inside interfaces)"""
+        r = self.rng
+        P = self.P
+        K, K2 = tint(self.kind()), tint(self.kind())
+        if not hasattr(self, '_blank_types'):
+            d = TypeDecl('%sBl%d' % (self.pfx, len(P.types)), 'struct', cx.pkg)
+            d.fields = [('A', K, False), ('_', K2, False), ('S', STR, False)]
+            d.has_blank = True
+            P.add_type(d)
+            o = TypeDecl('%sBo%d' % (self.pfx, len(P.types)), 'struct', cx.pkg)
+            o.fields = [('X', ('named', d), False), ('_', BOOL, False), ('Y', K, False)]
+            o.has_blank = True
+            P.add_type(o)
+            self._blank_types = (d, o, K, K2)
+        d, o, K, K2 = self._blank_types
+        if d.pkg != cx.pkg:
+            return None
+        T, O = ('named', d), ('named', o)
+        a, b, c = self.newvar(cx, T, 'bl'), self.newvar(cx, T, 'bl'), self.newvar(cx, T, 'bl')
+        av, sv = self.int_expr(cx, K, 1), self.str_lit()
+        mk = lambda x, bl, s_: StructLit(T, [x, bl, s_], positional=True)
+        out = [Decl([a], [mk(av, self.int_lit(K2), sv)]),
+               Decl([b], [mk(VarRef(a).__class__(a) if False else Sel(VarRef(a), 'A', K), self.int_expr(cx, K2, 1, nonconst=True), Sel(VarRef(a), 'S', STR))]),
+               Decl([c], [mk(Bin('add', Sel(VarRef(a), 'A', K), IntLit(K, 1)), self.int_lit(K2), Sel(VarRef(a), 'S', STR))]),
+               Print(True, [Bin('eq', VarRef(a), VarRef(b)), Bin('ne', VarRef(a), VarRef(b)), Bin('eq', VarRef(a), VarRef(c)),
+                            Bin('eq', ToIface('any', VarRef(a)), ToIface('any', VarRef(b)))])]
+        # as a switch tag
+        out.append(Switch('', [], VarRef(a), [Case([VarRef(c)], [Print(True, [StrLit(b"switch: c")])]),
+                                              Case([VarRef(b)], [Print(True, [StrLit(b"switch: b")])]),
+                                              Case([], [Print(True, [StrLit(b"switch: none")])], default=True)]))
+        # as array elements and nested fields
+        AT = ('arr', 2, T)
+        x, y = self.newvar(cx, AT, 'ba'), self.newvar(cx, AT, 'ba')
+        out += [Decl([x], [SeqLit(AT, [VarRef(a), VarRef(c)])]), Decl([y], [SeqLit(AT, [VarRef(b), VarRef(c)])]),
+                Print(True, [Bin('eq', VarRef(x), VarRef(y)), Bin('ne', VarRef(x), VarRef(y))])]
+        p, q = self.newvar(cx, O, 'bo'), self.newvar(cx, O, 'bo')
+        yv = self.int_expr(cx, K, 1)
+        out += [Decl([p], [StructLit(O, [VarRef(a), BoolLit(True), yv], positional=True)]),
+                Decl([q], [StructLit(O, [VarRef(b), BoolLit(False), Sel(VarRef(p), 'Y', K)], positional=True)]),
+                Print(True, [Bin('eq', VarRef(p), VarRef(q)), Bin('ne', VarRef(p), VarRef(q))])]
+        for v in (a, b, c, x, y, p, q):
+            cx.add(v)
+        self.feat.add('blank-field-compare')
+        self.charge(cx, 30)
+        self.budget -= 6
+        return out
+
+    BIG_SIZES = [500, 520, 520, 1024, 1024, 2000, 5000, 5000, 8190, 8200]
+
+    def s_big(self, cx):
+        """large values (4 KB … 64 KB): every copy is a snapshot — through a pointer and into an interface, by-value parameter
+        and result, captured by a closure, array assignment"""
+        r = self.rng
+        P = self.P
+        n = r.choice(self.BIG_SIZES)
+        K = tint(self.kind())
+        I64 = tint('i64')
+        key = '_big_%d' % n
+        if not hasattr(self, key):
+            d = TypeDecl('%sBig%d' % (self.pfx, n), 'struct', cx.pkg)
+            AT = ('arr', n, I64)
+            d.fields = [('Id', INT, False), ('Buf', AT, False), ('Tag', K, False)]
+            P.add_type(d)
+            T = ('named', d)
+            # func snap(p *Big, k int) any { old := *p; p.Id++; p.Buf[k] = -1; return any(old) }
+            f = self.new_func('Snap%d' % n, False, [('ptr', T), INT], ['any'], pkg=cx.pkg)
+            pp, kk = f.params
+            old = Var(P.slot(), 'old', T)
+            f.body = [Decl([old], [Deref(VarRef(pp))]),
+                      OpAssign('add', Sel(VarRef(pp), 'Id', INT), IntLit(INT, 1), incdec=True),
+                      Assign([Index(Sel(VarRef(pp), 'Buf', AT), VarRef(kk))], [IntLit(I64, -1)]),
+                      Return([ToIface('any', VarRef(old))])]
+            f.cost = 10
+            P.add_func(f)
+            # func byval(b Big, k int) Big { b.Id += 100; b.Buf[k] = 5; return b }
+            g = self.new_func('ByVal%d' % n, False, [T, INT], [T], pkg=cx.pkg)
+            bb, k2 = g.params
+            g.body = [OpAssign('add', Sel(VarRef(bb), 'Id', INT), IntLit(INT, 100)),
+                      Assign([Index(Sel(VarRef(bb), 'Buf', AT), VarRef(k2))], [IntLit(I64, 5)]),
+                      Return([VarRef(bb)])]
+            g.cost = 10
+            P.add_func(g)
+            setattr(self, key, (d, f, g))
+        d, f, g = getattr(self, key)
+        if d.pkg > cx.pkg:
+            return None
+        T, AT = ('named', d), ('arr', n, I64)
+        k = r.choice([0, 1, n // 2, n - 1])
+        kl = IntLit(INT, k)
+        b, y, o, ok = self.newvar(cx, T, 'big'), self.newvar(cx, 'any', 'y'), self.newvar(cx, T, 'big'), self.newvar(cx, BOOL, 'ok')
+        buf = lambda v: Index(Sel(VarRef(v), 'Buf', AT), kl)
+        idv = lambda v: Sel(VarRef(v), 'Id', INT)
+        out = [Decl([b], [], zero=True),
+               Assign([idv(b)], [self.int_expr(cx, INT, 1)]),
+               Assign([buf(b)], [self.int_expr(cx, I64, 1)]),
+               Decl([y], [Call(f, [Addr(VarRef(b)), kl])]),
+               Decl([o, ok], [Assert(VarRef(y), T, True)]),
+               Print(True, [StrLit(b"snapshot"), VarRef(ok), idv(o), buf(o), idv(b), buf(b)])]
+        c = self.newvar(cx, T, 'big')
+        out += [Decl([c], [Call(g, [VarRef(b), kl])]), Print(True, [StrLit(b"byvalue"), idv(c), buf(c), idv(b), buf(b)])]
+        # closure capturing the big variable; s is a snapshot taken before the closure runs
+        lit = Func('lit', cx.pkg)
+        lit.is_lit = True
+        lit.results = [Var(P.slot(), 'r', INT)]
+        lit.body = [OpAssign('mul', idv(b), IntLit(INT, 2)), Assign([buf(b)], [IntLit(I64, 77)]), Return([idv(b)])]
+        P.add_func(lit, printed=False)
+        fv, s_, rr = self.newvar(cx, P.sig([], [INT]), 'f'), self.newvar(cx, T, 'big'), self.newvar(cx, INT)
+        out += [Decl([fv], [FuncLit(lit, P.sig([], [INT]))]), Decl([s_], [VarRef(b)]), Decl([rr], [CallV(VarRef(fv), [])]),
+                Print(True, [StrLit(b"closure"), VarRef(rr), idv(s_), buf(s_), idv(b), buf(b), Bin('eq', VarRef(s_), VarRef(b))])]
+        # plain arrays: assignment, copy through a pointer, into an interface
+        a, a2, pa, a3, ia, a4, ok2 = (self.newvar(cx, AT, 'arr'), self.newvar(cx, AT, 'arr'), self.newvar(cx, ('ptr', AT), 'pa'),
+                                      self.newvar(cx, AT, 'arr'), self.newvar(cx, 'any', 'ia'), self.newvar(cx, AT, 'arr'), self.newvar(cx, BOOL, 'ok'))
+        el = lambda v: Index(VarRef(v), kl)
+        out += [Decl([a], [], zero=True), Assign([el(a)], [IntLit(I64, 3)]), Decl([a2], [VarRef(a)]), Assign([el(a)], [IntLit(I64, 4)]),
+                Decl([pa], [Addr(VarRef(a))]), Decl([a3], [Deref(VarRef(pa))]), Assign([Index(VarRef(pa), kl)], [IntLit(I64, 5)]),
+                Decl([ia], [ToIface('any', VarRef(a3))]), Assign([el(a3)], [IntLit(I64, 6)]),
+                Decl([a4, ok2], [Assert(VarRef(ia), AT, True)]),
+                Print(True, [StrLit(b"arrays"), el(a2), el(a3), el(a4), el(a), VarRef(ok2), Bin('eq', VarRef(a2), VarRef(a4))])]
+        self.feat.add('large-value-%dKB' % max(1, n * 8 // 1024))
+        self.feat.add('large-values')
+        self.charge(cx, 200)
+        self.budget -= 8
+        return out
+
     def s_generic(self, cx):
         """a statement group using a generic function or type at random type arguments"""
         r = self.rng
@@ -674,7 +800,19 @@ class ProgGen(Gen):
             if c < 0.16:
                 body += self.s_iface_chain(cx)
                 continue
-            if c < 0.24 and self.recovering:
+            if c < 0.2 and not hasattr(self, '_blank_done'):
+                self._blank_done = True
+                st = self.s_blank(cx)
+                if st:
+                    body += st
+                    continue
+            if c < 0.215 and not hasattr(self, '_big_done'):
+                self._big_done = True
+                st = self.s_big(cx)
+                if st:
+                    body += st
+                    continue
+            if 0.215 <= c < 0.27 and self.recovering:
                 fn = r.choice(self.recovering)
                 v = self.newvar(cx, fn.results[0].ty)
                 body += [Decl([v], [Call(fn, [self.int_expr(cx, fn.params[0].ty, 1), IntLit(INT, r.randint(0, fn.sel_range))])]), Print(True, [VarRef(v)])]
